@@ -90,7 +90,7 @@ def assembled(ctx, oracle, cases, rng, members, pid):
     from cij.core.tasks import PhononContributionTaskList
     from cij.util import c_
     keys = [(1, 1), (2, 2), (3, 3), (1, 2), (1, 3), (2, 3)]
-    picks = list(range(0, len(cases), max(1, len(cases) // (8 if len(cases) <= 80 else 80))))
+    picks = list(range(0, len(cases), max(1, len(cases) // (16 if len(cases) <= 80 else 80))))
     for n, ci in enumerate(picks):
         case = cases[ci]
         ntv = len(case["v"])
@@ -98,9 +98,17 @@ def assembled(ctx, oracle, cases, rng, members, pid):
         form = ("ones", "fractions", "scaled_rows", "near_equal")[n % 4]
         raw = numpy.ones((ntv, 3)) if form == "ones" else e if form == "fractions" else e * rng.uniform(0.3, 5.0, (ntv, 1))
         if form == "near_equal":
-            # two axes whose strains differ by 5e-5 .. 3e-4 (a pseudo-tetragonal cell): different numbers - each component gets its own e_i
+            # two axes whose strains differ by 2e-5 .. 1e-3 relative (a pseudo-tetragonal cell): different numbers - each component gets its
+            # own e_i.  Every other time the fractions do not change along the volume grid (self-similar compression), so that the
+            # two columns are equally close at EVERY volume; the separations walk down a ladder that ends just above what the task
+            # equality (numpy.allclose, rtol 1e-5) regards as equal.
             raw = e.copy()
-            raw[:, 1] = raw[:, 0] * (1.0 + rng.uniform(5e-5, 3e-4, ntv))
+            rung = (2e-5, 5e-5, 2e-4, 1e-3)[(n // 4) % 4]
+            if (n // 4) % 2 == 0 or ntv < 2:
+                raw = numpy.tile(e[0], (ntv, 1))
+                raw[:, 1] = raw[:, 0] * (1.0 + rung)
+            else:
+                raw[:, 1] = raw[:, 0] * (1.0 + rung * rng.uniform(1.0, 1.5, ntv))
         frac = raw / raw.sum(axis=1, keepdims=True)
         ctx.count({"assembled": ci, "strain_form": form, "h": float(case["freq"].sum())})
         duck = DuckCalc(case)
